@@ -32,7 +32,7 @@ pub const VALUES: [&str; 22] = [
     "#N/A", "0", "12,345.5", "a&b", "1/2", "  spaced  ", "=", "3.14159265358979", "1E+20", "é€", "",
 ];
 
-pub const FORMULAS: [&str; 44] = [
+pub const FORMULAS: [&str; 50] = [
     "=A1+1", "=A1+B2", "=SUM(A1:B3)", "=Sheet2!A1*2", "=IF(A1>2,\"x\",\"y\")", "=(1+2)%", "=-(A1<2)",
     "=A1&(B1=C1)", "=1-(2-3)", "=(A1&B1)+3", "=-(2*3)", "=1=(2=3)", "=2^-2", "=(-2)^2", "=-2^2",
     "=SEQUENCE(3)", "=A1:A3*2", "=SUM(C:C)", "=SUM(2:2)", "=LAMBDA(x,x+1)(2)", "=LET(a,1,a+1)",
@@ -40,9 +40,12 @@ pub const FORMULAS: [&str; 44] = [
     "=A1%%", "=(A1+B1)*(C1-D1)/2", "=\"a\"&\"b\"&1", "=AND(TRUE,A1>0)", "=ROUND(A1/3,2)",
     "=$A$1+A$2+$A3", "=Sheet2!$B$2:$C$3", "=SUM(Sheet2!A1:B2)", "='My Sheet'!A1", "=Ghost!A1+1",
     "=SUM(Ghost!A1:A2)", "=1+(2+3)", "=A1<>B1", "=1E+3*2", "=#REF!+1", "=TRUE()",
+    // identifiers shaped like references (LET variables, LAMBDA parameters, defined names)
+    "=LET(R1C1_rate,A1,R1C1_rate+1)", "=LET(RC.x,2,RC.x*2)", "=LAMBDA(R2C3_v,R2C3_v+1)(1)",
+    "=LET(A1_b,3,A1_b^2)", "=R1C1_total+1", "=LET(x.y,1,x.y+1)",
 ];
 
-const NAMES: [&str; 3] = ["rate", "Total_2", "k3"];
+const NAMES: [&str; 4] = ["rate", "Total_2", "k3", "R1C1_total"];
 const SHEET_NAMES: [&str; 5] = ["Data", "My Sheet", "Sheet2", "a&b", "Q1 2024"];
 const STYLE_PATHS: [(&str, &str); 8] = [
     ("font.b", "true"), ("font.i", "true"), ("font.u", "true"), ("num_fmt", "0.00"), ("num_fmt", "#,##0"),
